@@ -13,6 +13,11 @@
 (*       "fileScope": scope id | 0}                                           *)
 (* Tree ids coincide on both sides (same shape, same traversal).              *)
 (*  {"side":"package","scopeA":[names],"scopeB":[names],"errsA":[..],"errsB"} *)
+(*  {"side":"reach","a":[..],"b":[..]}  restore with Extras of a tree from    *)
+(*   which declarations were removed: every object reachable from the file,   *)
+(*   also through declarations that are no longer part of it (Deferred.tla),  *)
+(*   in first-visit order, as "kind name declType [objects of the idents of   *)
+(*   the declaration]"; a = dst side, b = restored ast side                   *)
 (***************************************************************************)
 EXTENDS Integers, Sequences, FiniteSets, TLC, Json
 
@@ -59,6 +64,10 @@ ScopesCarried == IsGraph =>
 
 \* building a package from decorated files: same package scope, same reports (positions aside)
 PackageSame == IsPkg => (Rec.scopeA = Rec.scopeB /\ Rec.errsA = Rec.errsB)
+
+\* the graph reachable through declarations outside the file is rebuilt as well
+IsReach == l <= Len(Trace) /\ Rec.side = "reach"
+ReachCarried == IsReach => Rec.a = Rec.b
 
 Accepted == TLCGet("stats").diameter = Len(Trace) + 1
 =============================================================================
